@@ -304,6 +304,8 @@ def run_case(case, ns):
         obs['result'] = summarize(result)
         env2 = dict(env)
         env2['result'] = result
+    except NativeHang:
+        raise
     except BaseException as e:   # noqa
         obs['outcome'] = 'raise'
         if isinstance(e, pyvc_rt.ScriptExhausted):
@@ -363,15 +365,30 @@ def run_case(case, ns):
     return obs
 
 
+class NativeHang(BaseException):
+    pass
+
+
+def _alarm(sig, frm):
+    raise NativeHang()
+
+
 def main():
+    import signal
     cases = json.load(sys.stdin)
     ns = spec_namespace()
     out = []
+    signal.signal(signal.SIGALRM, _alarm)
     for c in cases:
+        signal.alarm(int(c.get('timeout_s', 8)))
         try:
             out.append(run_case(c, ns))
+        except NativeHang:
+            out.append({'id': c.get('id'), 'outcome': 'hang', 'hang': True, 'clauses': {}, 'witness': []})
         except BaseException:   # noqa
             out.append({'id': c.get('id'), 'error': traceback.format_exc()[-800:]})
+        finally:
+            signal.alarm(0)
     json.dump(out, sys.stdout)
 
 
